@@ -257,7 +257,7 @@ def finish(ctx, level, explanation, technique, checker_cmd):
         'distinct_nontrivial': int(nontrivial),
         'rule': ctx.extra.get('rule_text', 'one obligation per (rule, configuration, function/impl instance) enumerated from the facts rustc resolved for the current tree'),
         'samples': ctx.samples if ctx.samples else [{'note': 'no samples recorded'}],
-        'obligations': n_ob,
+        'obligations': by.get(HOLDS, 0) + by.get(VIOLATION, 0) + by.get(UNVERIFIABLE, 0),
         'discharged': discharged,
         'undecided': by.get(UNDECIDED, 0),
         'violations_or_unverifiable': by.get(VIOLATION, 0) + by.get(UNVERIFIABLE, 0),
